@@ -43,6 +43,7 @@ class BuildError(Exception):
 def schema(T, with_cons=True):
     """Build one pyasn1 schema object for the IR type T."""
     try:
+        _SHARED.clear()
         return _schema(T, with_cons)
     except BuildError:
         raise
@@ -50,7 +51,22 @@ def schema(T, with_cons=True):
         raise BuildError(T, e)
 
 
+_SHARED = {}
+
+
 def _schema(T, with_cons=True):
+    if T.get('share') and T.get('tags') is not None:
+        # members marked 'share' derive their tagged variants from ONE untagged base object (per schema build)
+        from . import ir as _ir
+        key = _ir.jdump(dict(T, tags=[], share=None))
+        base = _SHARED.get(key)
+        if base is None:
+            base = _SHARED[key] = _schema(dict(T, tags=[], share=None), with_cons)
+        return apply_tags(base, T.get('tags', ()))
+    return _schema1(T, with_cons)
+
+
+def _schema1(T, with_cons=True):
     k = T['k']
     if k in SIMPLE_CLASS:
         if k in ('INTEGER', 'ENUMERATED') and T.get('named'):
@@ -60,7 +76,7 @@ def _schema(T, with_cons=True):
     elif k in ir.RECORD_KINDS:
         nts = []
         for c in T['comps']:
-            cs = schema(c['t'], with_cons)
+            cs = _schema(c['t'], with_cons)
             if c['p'] == 'req':
                 nts.append(namedtype.NamedType(c['name'], cs))
             elif c['p'] == 'opt':
@@ -69,10 +85,10 @@ def _schema(T, with_cons=True):
                 nts.append(namedtype.DefaultedNamedType(c['name'], value_from(cs, c['t'], c['d'])))
         obj = CONSTRUCTED_CLASS[k](componentType=namedtype.NamedTypes(*nts))
     elif k in ir.OF_KINDS:
-        obj = CONSTRUCTED_CLASS[k](componentType=schema(T['of'], with_cons))
+        obj = CONSTRUCTED_CLASS[k](componentType=_schema(T['of'], with_cons))
     elif k == 'CHOICE':
         obj = univ.Choice(componentType=namedtype.NamedTypes(
-            *[namedtype.NamedType(a['name'], schema(a['t'], with_cons)) for a in T['alts']]))
+            *[namedtype.NamedType(a['name'], _schema(a['t'], with_cons)) for a in T['alts']]))
     else:
         raise ValueError(k)
     if with_cons and T.get('cons') is not None:
